@@ -273,7 +273,11 @@ def final_reads_without_filters(ent, d):
 
 
 def expected_errors_py(qual, base=33):
-    return sum(10 ** (-(ord(c) - base) / 10) for c in qual)
+    """the sum of 10^(-Q/10) with 40 significant digits (then rounded once): exact enough to tell 1 + 5e-10 from 1"""
+    from decimal import Decimal, getcontext
+
+    getcontext().prec = 40
+    return float(sum(Decimal(10) ** (Decimal(-(ord(c) - base)) / Decimal(10)) for c in qual))
 
 
 def oracle_c11(ent, d):
@@ -335,8 +339,8 @@ def oracle_c11(ent, d):
 
 
 def near_gt(x, thr):
-    """x > thr decided in decimal arithmetic; None when too close to call"""
-    if abs(x - thr) <= 1e-9 * max(1.0, abs(thr)):
+    """x > thr; None when too close to call for a sum of doubles (the exact sum is within a few ulps of the computed one)"""
+    if abs(x - thr) <= 1e-12 * max(1.0, abs(thr)):
         return None
     return x > thr
 
@@ -964,6 +968,20 @@ def maxn_boundary_case(rng):
     return cfg, reads
 
 
+def maxee_boundary_case(rng):
+    """--max-ee at a whole number n: n bases of quality 0 (one expected error each) with a few bases of quality 93 added give
+    n + k * 5e-10 -- above the threshold, however little (consumed); one base of quality 0 fewer is below (kept)"""
+    n = rng.choice([1, 1, 2, 3])
+    cfg = S.Cfg(max_ee=float(n))
+    reads = []
+    for i, (zeros, tiny) in enumerate([(n, rng.choice([1, 3])), (n - 1, 2), (n, 1), (n + 1, 0), (n - 1, 0)]):
+        q = list("!" * zeros + "~" * tiny)
+        rng.shuffle(q)
+        reads.append(("r%d" % i, U.rand_seq(rng, len(q), "ACGT"), "".join(q)))
+    reads = [r for r in reads if r[1]]
+    return cfg, reads
+
+
 def linked_dimer_case(rng):
     """linked adapters on adapter dimers: nothing (or next to nothing) between the two parts, and a base deleted from the 3' part, so
     that what is left after the 5' part is shorter than the 3' adapter (anchored, or with a minimum overlap of its full length)"""
@@ -1040,6 +1058,9 @@ def run(ctx, pid):
             continue
         if pid == "C11" and rng.random() < 0.08:
             cases.append(maxn_boundary_case(rng))
+            continue
+        if pid == "C11" and rng.random() < 0.04:
+            cases.append(maxee_boundary_case(rng))
             continue
         if pid == "C17" and rng.random() < 0.1:
             cases.append(indexed_info_case(rng))
